@@ -137,6 +137,23 @@ def released(run, p, table_txt, key_txt, extra_absent=()):
     return None
 
 
+def indexes_foreign_data(stmt):
+    """statement raiser for the release sequences: a simple statement that
+    indexes data reached through a local object (a packet taken out of a
+    table, a parameter) - `pkt.data[0]`, `x[k]` - may raise on input the
+    client controls (payload None, empty list, dict).  Indexing one of the
+    server's own tables (`self.<table>[...]`) is not counted here: the table
+    rules treat those."""
+    for n in ast.walk(stmt):
+        if isinstance(n, ast.Subscript) and isinstance(n.ctx, ast.Load):
+            root = n.value
+            while isinstance(root, (ast.Attribute, ast.Subscript, ast.Call)):
+                root = root.func if isinstance(root, ast.Call) else root.value
+            if isinstance(root, ast.Name) and root.id != 'self':
+                return {'TypeError', 'IndexError', 'KeyError'}
+    return None
+
+
 def r1_transport_tables(ctx, fam):
     m = ctx.model
     eff = effects(ctx)
@@ -152,7 +169,8 @@ def r1_transport_tables(ctx, fam):
                             'hand)' % (tables, S))
     f = m.method(S, '_handle_eio_disconnect')
     key = f.params[1]
-    run = run_function(f, m, raiser=eff.app_raiser(f))
+    run = run_function(f, m, raiser=eff.app_raiser(f),
+                       stmt_raiser=indexes_foreign_data)
     for attr in tables:
         bad = None
         how = set()
@@ -166,8 +184,12 @@ def r1_transport_tables(ctx, fam):
                   'per-transport table %s[%s] released on every exit (%s)'
                   % (attr, key, '/'.join(sorted(how))),
                   key='table %s no-delete' % attr,
-                  reason='self.%s[%s] is not released on path %s' % (
-                      attr, key, bad.describe()[:200] if bad else ''),
+                  reason='self.%s[%s] is not released on path %s%s' % (
+                      attr, key, bad.describe()[:200] if bad else '',
+                      ' (the exception is raised at line %d: %s)' % (
+                          bad.origin.lineno, U(bad.origin.node)[:70])
+                      if bad is not None and bad.exit == 'exc' and
+                      bad.origin is not None else ''),
                   where=where(f), witness='table ' + attr)
     ctx.extra.setdefault('derived_tables', {})[S] = tables
 
